@@ -230,7 +230,7 @@ class ImplRun:
             except RuntimeError:
                 self.objs.append(None)
                 self.out += [4]
-        self.out += [-5] + self.world.snap() + [-6]
+        self.out += [-5, self.world.now_ns] + self.world.snap() + [-6]
         for o in self.objs:
             self.out += dump_obj(o)
         self.cur = 0
@@ -255,7 +255,7 @@ class ImplRun:
             else:
                 o = self.objs[self.cur]
                 res = apply_op(o, op)
-                self.out += [-1] + res + [-5] + self.world.snap() + [-6] + dump_obj(o)
+                self.out += [-1] + res + [-5, self.world.now_ns] + self.world.snap() + [-6] + dump_obj(o)
         return self.out + [-2]
 
 
@@ -354,7 +354,7 @@ def checked_run(model, plus, obj_radios, make_obj, ops, checker):
         log.clear()
         res = apply_op(obj, op)
         snapi = impl.world.snap()
-        out += [-1] + res + [-5] + snapi + [-6] + dump_obj(obj)
+        out += [-1] + res + [-5, impl.world.now_ns] + snapi + [-6] + dump_obj(obj)
         snaps = W.parse_snaps(snapi, nr)[0]
         if verdict is None:
             v = checker.step(k, cur, op, res, prev, snaps, obj, log)
